@@ -247,7 +247,10 @@ def run_component(comp, cases, workdir, tag, exes, driver, env_flags, timeout=30
                 crashed.append((os.path.basename(exe), p.returncode, (o or "")[-1500:], last))
             if os.path.exists(of): w.write(open(of, errors="replace").read())
     mf, jf = os.path.join(workdir, tag + ".model"), os.path.join(workdir, tag + ".judge")
-    r = sh([driver, comp, cf, impl_all, mf, jf, env_flags.get("conv", "avx512")], timeout=timeout)
+    # the extracted code recurses on lists (not always tail-recursively): give it the whole stack for multi-million-key cases
+    import shlex
+    r = sh("ulimit -s unlimited 2>/dev/null || ulimit -s 4000000 2>/dev/null; exec " +
+           " ".join(shlex.quote(x) for x in [driver, comp, cf, impl_all, mf, jf, env_flags.get("conv", "avx512")]), timeout=timeout)
     if r.returncode:
         raise RuntimeError("driver failed: " + (r.stderr or r.stdout)[-2000:])
     jfails, jsum = {}, {}
